@@ -12,6 +12,8 @@ objects are compared with what TLC says the caller left them as (argument_change
 C2S: random recorded histories (general slices, masks, values, += / -= forms, per-column transforms with lists of
 functions that take further columns) validated step by step by spec/Trace_Dictable.tla."""
 import json
+import functools
+import operator
 import copy as pycopy
 from harness.enc import IdMap, tag, untag
 from pyg_base import dictable
@@ -43,6 +45,23 @@ def construct(seed, ids, k):
         rows = [[untag(v, ids) for v in row] for row in seed['rows']]
         return dictable(rows, seed['hdrs']) if k % 2 else dictable(data=rows, columns=list(seed['hdrs']))
     raise ValueError(kind)
+
+
+def construct_big(seed, n, b, ids, k):
+    """rendering of BigT: the pattern rows (given explicitly by the seed) laid out n times, as rows + headers, columns or records"""
+    if seed['kind'] == 'recs':
+        pat = [{c: untag(v, ids) for c, v in rec} for rec in seed['recs']]
+        if not pat:
+            return construct(seed, ids, k)
+        recs = [dict(pat[(i // b) % len(pat)]) for i in range(n)]
+        return dictable(recs) if k % 2 else dictable(data=recs)
+    pat = [[untag(v, ids) for v in row] for row in seed['rows']]
+    hdrs = list(seed['hdrs'])
+    if not pat:
+        return construct(seed, ids, k)
+    rows = [list(pat[(i // b) % len(pat)]) for i in range(n)]
+    cols = {c: [row[j] for row in rows] for j, c in enumerate(hdrs)}
+    return [lambda: dictable(rows, hdrs), lambda: dictable(cols), lambda: dictable(**cols), lambda: dictable([dict(zip(hdrs, row)) for row in rows])][k % 4]()
 
 
 def build_args(av, ids):
@@ -138,6 +157,23 @@ def step(regs, args, h, ids, k):
         # ---- calls whose arguments are made for the call
         if op == 'New':
             regs[h['rd']] = construct(h['seed'], ids, k); return 'ok'
+        if op == 'NewBig':                     # a small pattern of rows scaled up to n rows: row i is pattern row (i // b) % p
+            regs[h['rd']] = construct_big(h['seed'], int(h['n']), int(h['b']), ids, k); return 'ok'
+        if op == 'ConcatN':                    # three or more operands in ONE call: tables of the session and single records
+            xs = [regs[o[1]] if o[0] == 'r' else {c: untag(v, ids) for c, v in o[2]} for o in h['ops']]
+            forms = [lambda: dictable.concat(*xs), lambda: dictable.concat(xs)]       # (a tuple of tables is not a documented call form: not rendered)
+            if isinstance(xs[0], dictable):    # the chained binary forms next to them (a record cannot start a chain)
+                forms += [lambda: sum(xs), lambda: functools.reduce(operator.add, xs), lambda: xs[0].concat(*xs)]
+            regs[h['rd']] = forms[k % len(forms)](); return 'ok'
+        if op == 'MaskCyc':
+            d = regs[h['r']]; pat = h['pat']
+            regs[h['rd']] = d[[bool(pat[i % len(pat)]) for i in range(len(d))]]; return 'ok'
+        if op == 'SetColCyc':
+            d = regs[h['r']]; pat = [untag(v, ids) for v in h['pat']]
+            v = [pat[i % len(pat)] for i in range(len(d))] if pat else []
+            if k % 2: d[h['c']] = v
+            else: setattr(d, h['c'], v)
+            return 'ok'
         if op == 'Concat':
             a, b = regs[h['ra']], regs[h['rb']]
             regs[h['rd']] = [dictable.concat(a, b), a + b, dictable.concat([a, b]), sum([a, b])][k % 4]; return 'ok'
@@ -235,7 +271,7 @@ def replay_hist(snap):
     args = build_args(snap['args0'], ids)
     out = 'ok'
     for k, h in enumerate(snap['hist']):
-        out = step(regs, args, h, ids, k + len(snap['hist']))
+        out = step(regs, args, h, ids, k + len(snap['hist']) + snap.get('variant', 0))
     got = {'out': out, 'args': encode_args(args, ids), 'regs': {}}
     live = sorted(regs)
     for r in ('r1', 'r2', 'r3'):
@@ -274,7 +310,7 @@ def check(ctx, snap, where):
                 elif g['table'].get('ragged'): clause = 'not_rectangular'
                 elif g['table'].get('rows') == e['table']['rows'] and g['table']['cols'] == e['table']['cols']: clause = 'observations_disagree'
         if got['args'] != exp['args']: clause = 'argument_changed'      # an object of the caller is not what the caller left it as
-        ctx.violation(clause, {'op': ops[-1], 'ops': ops, 'hist': snap['hist'], 'args0': snap['args0'], 'source': where}, {'expected': exp, 'observed': got})
+        ctx.violation(clause, {'op': ops[-1], 'ops': ops, 'hist': snap['hist'], 'args0': snap['args0'], 'source': where, 'variant': snap.get('variant', 0)}, {'expected': exp, 'observed': got})
     return got == exp
 
 
@@ -392,7 +428,7 @@ def rand_event(rng, regs, args=None, flags=None):
     cols = list(dict.keys(d))
     rd = rng.choice(['r1', 'r2', 'r3'])
     op = rng.choice(['SetCol', 'SetCol', 'DelCol', 'Update', 'Slice', 'Slice', 'Mask', 'Take', 'Project', 'Derive', 'Do', 'Do', 'Rename', 'Swap', 'Concat', 'AddRecord', 'Copy', 'NoFilter', 'AddNone', 'ConcatOne',
-                     'IAdd', 'IAddRecord', 'IAddRecord', 'IAddNone', 'ISub', 'SetFrom', 'Minus', 'DeriveConst', 'DerivePair'])
+                     'IAdd', 'IAddRecord', 'IAddRecord', 'IAddNone', 'ISub', 'SetFrom', 'Minus', 'DeriveConst', 'DerivePair', 'ConcatN', 'ConcatN', 'MaskCyc', 'SetColCyc'])
     if op in ('IAdd', 'IAddRecord', 'ISub') and sum(1 for s in live if regs[s] is d) > 1:
         op = 'Copy'          # += on a table that a second name holds too is not pinned down by the statement (see SoleName in the spec)
     def colarg():
@@ -401,6 +437,20 @@ def rand_event(rng, regs, args=None, flags=None):
         if q < 0.4: return ['l', [val()]]
         if q < 0.85: return ['l', [val() for _ in range(n)]]
         return ['l', [val() for _ in range(rng.choice([0, 2, n + 1, n + 2]))]]
+    if op == 'ConcatN':        # 3 - 5 operands in one call: live tables (the same one may come twice) and single records, while the result stays small
+        def operand():
+            return ['r', rng.choice(live), []] if rng.random() < 0.65 else ['rec', '', [[c, val()] for c in rng.sample(COLS, rng.choice([1, 2, 3]))]]
+        ops = [['r', r, []]] + [operand() for _ in range(rng.choice([2, 2, 3, 4]))]
+        rng.shuffle(ops)
+        try:
+            big = sum(len(regs[o[1]]) for o in ops if o[0] == 'r') > 60
+        except Exception:
+            big = False
+        return {'op': 'Copy', 'r': r, 'rd': rd} if big else {'op': op, 'ops': ops, 'rd': rd}
+    if op == 'MaskCyc':
+        return {'op': op, 'r': r, 'rd': rd, 'pat': rng.choice([[True, False], [False, True, True], [True], [False], [False, False, True, False, True]])}
+    if op == 'SetColCyc':
+        return {'op': op, 'r': r, 'c': rng.choice(COLS), 'pat': [val() for _ in range(rng.choice([0, 1, 2, 3, 3]))]}
     if op == 'SetCol':
         return {'op': op, 'r': r, 'c': rng.choice(COLS), 'arg': colarg()}
     if op == 'DelCol':
@@ -489,6 +539,89 @@ def post(regs, ids, args=None):
 
 NO_ARGS = {'m': [], 'rn': [], 'recs': [], 'L': [], 'cs': [], 'ix': []}
 
+# ---- round 5: size.  Small row patterns whose columns MIX cell kinds (str with int, int with float, None with anything, datetimes, bool),
+# scaled up to n rows (BigT of the specification) and pushed through every row-selecting / row-wise call; judged by the same trace specification.
+I1, I2, I0, SX, SYY, SE, F52, F11, NONE, D1, D2, B1 = (["i", 1], ["i", 2], ["i", 0], ["s", "x"], ["s", "yy"], ["s", ""], ["f", [5, 2]], ["f", [1, 1]], ["n", 0],
+                                                      ["d", [730120, 0, 0]], ["d", [730121, 3600, 7]], ["b", 1])
+BIGPATS = [{'kind': 'rows', 'hdrs': ['a', 'b', 'c'], 'rows': [[I1, SX, D1], [SYY, F52, NONE], [I2, NONE, D2]]},          # str with int; str, float, None; dates with None
+           {'kind': 'rows', 'hdrs': ['a', 'b'], 'rows': [[I1, F11], [F52, I2], [I0, NONE], [I2, B1]]},                    # int with float; int, None, bool
+           {'kind': 'recs', 'recs': [[['a', I1], ['b', SX]], [['a', SE]], [['b', I2], ['key', D1]], [['a', NONE], ['b', F52]], [['key', SYY], ['a', I2]]]},   # records with different keys
+           {'kind': 'rows', 'hdrs': ['key', 'a'], 'rows': [[D1, SX], [D2, I1]]},                                          # dates; str with int
+           {'kind': 'rows', 'hdrs': ['a', 'e', 'b'], 'rows': [[I1, I1, F52], [I2, I2, F11], [I0, I1, F52], [I1, I0, F11], [I2, I2, F52], [I0, I0, F11], [I1, SX, I1]]}]   # one odd cell in 7 rows
+MASKPATS = [[True, False, True], [False, True, True, False, True], [True], [False], [False] * 6 + [True]]
+
+
+def big_script(rng, pat, n, b, half):
+    """the events of one history on a big table: r1 is the big table and the operand of every call (looked at again after each one)"""
+    val = lambda: rng.choice(POOL)
+    bound = lambda: [0, 0] if rng.random() < 0.3 else [1, rng.randint(-n - 2, n + 2)]
+    ev = [{'op': 'Bind', 'av': NO_ARGS}, {'op': 'NewBig', 'rd': 'r1', 'seed': pat, 'n': n, 'b': b}]
+    if half == 0:
+        ev += [{'op': 'MaskCyc', 'r': 'r1', 'rd': 'r2', 'pat': MASKPATS[0]},
+               {'op': 'Mask', 'r': 'r1', 'rd': 'r3', 'mask': [rng.random() < 0.5 for _ in range(n)]},
+               {'op': 'Slice', 'r': 'r1', 'rd': 'r2', 'lo': bound(), 'hi': bound(), 'step': rng.choice([1, 2, 3, -1, -2, 7])},
+               {'op': 'Take', 'r': 'r1', 'rd': 'r3', 'pos': [rng.randint(-n, n - 1) for _ in range(rng.choice([3, 17, 65, 70]))]},
+               {'op': 'ConcatN', 'ops': [['r', 'r2', []], ['rec', '', [['a', val()], ['z', val()]]], ['r', 'r1', []], ['r', 'r3', []]], 'rd': 'r3'}]
+    else:
+        ev += [{'op': 'NoFilter', 'r': 'r1', 'rd': 'r2', 'f': rng.choice(['inc', 'exc'])},
+               {'op': 'MaskCyc', 'r': 'r2', 'rd': 'r3', 'pat': rng.choice(MASKPATS[1:])},
+               {'op': 'SetColCyc', 'r': 'r1', 'c': rng.choice(['a', 'e']), 'pat': [val() for _ in range(rng.choice([2, 3, 5]))]},
+               {'op': 'MaskCyc', 'r': 'r1', 'rd': 'r2', 'pat': MASKPATS[1]},
+               {'op': 'Slice', 'r': 'r1', 'rd': 'r3', 'lo': bound(), 'hi': bound(), 'step': rng.choice([1, 2, -1, 5])},
+               {'op': 'IAddRecord', 'r': 'r1', 'rd': 'r1', 'rec': [['a', val()], ['b', val()]]},
+               {'op': 'Mask', 'r': 'r1', 'rd': 'r2', 'mask': [rng.random() < 0.8 for _ in range(n + 1)]}]
+    return ev
+
+
+def record(ctx, events_or_gen, nrandom=0, cap=None):
+    """run the events on real objects and log outcome + projection after each; then nrandom more events drawn from the general menus
+    (tables kept below `cap` rows: a concatenation that would exceed it is recorded as a copy instead)"""
+    ids = IdMap(); regs = {}; events = []
+    args = build_args(NO_ARGS, ids); flags = {'lg': False}
+    def size(r):
+        try: return len(regs[r])
+        except Exception: return 0
+    todo = list(events_or_gen)
+    for k in range(len(todo) + nrandom):
+        e = todo[k] if k < len(todo) else rand_event(ctx.rng, regs, args, flags)
+        if cap is not None and k >= len(todo):
+            grows = {'Concat': lambda: size(e['ra']) + size(e['rb']), 'IAdd': lambda: size(e['r']) + size(e['rb']),
+                     'ConcatN': lambda: sum(size(o[1]) for o in e['ops'] if o[0] == 'r')}
+            if e['op'] in grows and grows[e['op']]() > cap:
+                e = {'op': 'Copy', 'r': sorted(regs)[0], 'rd': e['rd']}
+        e = dict(e)
+        e['k'] = ctx.rng.randint(0, 11)            # which spelling of the call (kept for replay)
+        e['out'] = step(regs, args, e, ids, e['k'])
+        e['post'] = post(regs, ids, args)
+        events.append(e)
+    return {'events': events}
+
+
+def big_histories(ctx):
+    """(i) scaled patterns: sizes around the thresholds a change could hide behind; (ii) one call with 17 / 65 / 130 operands;
+    (iii) long histories: 70 / 130 / 260 calls in one session on small tables"""
+    rng = ctx.rng
+    sizes = [(17, 5), (65, 5), (66, 2), (101, 2), (130, 3), (257, 2), (260, 1)] if ctx.quick else [(17, 10), (64, 5), (65, 10), (101, 10), (130, 10), (257, 10), (260, 5), (1025, 3)]
+    obs = []
+    for n, count in sizes:
+        for j in range(count):
+            pat = BIGPATS[j % len(BIGPATS)]
+            p = len(pat.get('rows') or pat.get('recs'))
+            b = [1, 2, max(1, n // p), 7][(j // len(BIGPATS) + j) % 4]
+            obs.append(record(ctx, big_script(rng, pat, n, b, (j + n) % 2), nrandom=2 if n <= 130 else 0, cap=2 * n + 2))
+            ctx.note(('big', n, j))
+    A = {'kind': 'rows', 'hdrs': ['a', 'b'], 'rows': [[I1, SX], [F52, NONE]]}
+    B = {'kind': 'rows', 'hdrs': ['a'], 'rows': [[SYY], [D1], [I2]]}
+    for nops in ([17, 65] if ctx.quick else [17, 65, 130, 257]):          # members of one argument list
+        unit = [['r', 'r1', []], ['r', 'r2', []], ['rec', '', [['b', I2], ['c', D2]]], ['r', 'r1', []], ['rec', '', [['a', NONE]]]]
+        ev = [{'op': 'Bind', 'av': NO_ARGS}, {'op': 'New', 'rd': 'r1', 'seed': A}, {'op': 'New', 'rd': 'r2', 'seed': B},
+              {'op': 'ConcatN', 'ops': [unit[i % len(unit)] for i in range(nops)], 'rd': 'r3'},
+              {'op': 'ConcatN', 'ops': [['r', 'r2', []]] * nops, 'rd': 'r3'}]
+        obs.append(record(ctx, ev)); ctx.note(('operands', nops))
+    for ncalls in ([70, 130, 260] if ctx.quick else [70, 130, 260, 260, 520, 1030]):          # calls in one session
+        obs.append(record(ctx, [{'op': 'Bind', 'av': rand_world(rng)}], nrandom=ncalls, cap=40)); ctx.note(('calls', ncalls))
+    return obs
+
 
 def c2s(ctx, nhist):
     obs = []
@@ -502,17 +635,25 @@ def c2s(ctx, nhist):
             events.append(e)
         obs.append({'events': events})
         ctx.note(('c2s', i))
+    judge(ctx, obs, 1000)           # one log of 5 000 histories (70 MB of JSON) exhausts TLC's heap: validate in slices
+    ctx.sample({'recorded_history': [{kk: v for kk, v in e.items() if kk != 'post'} for e in obs[0]['events'][:6]]})
+    big = big_histories(ctx)
+    judge(ctx, big, 8)
+    ctx.sample({'recorded_big_history': [{kk: (v if kk != 'mask' else '<%i flags>' % len(v)) for kk, v in e.items() if kk != 'post'} for e in big[-6]['events'][:5]],
+                'rows_of_r1_after_it': big[-6]['events'][4]['post']['r1']['table']['len']})
+
+
+def judge(ctx, obs, per_run):
     ctx.evals += sum(len(o['events']) for o in obs)
     bad = []
-    for k in range(0, len(obs), 1000):           # one log of 5 000 histories (70 MB of JSON) exhausts TLC's heap: validate in slices
-        bad += [(line + k, clause) for line, clause in ctx.validate('Trace_Dictable', obs[k:k + 1000])]
+    for k in range(0, len(obs), per_run):
+        bad += [(line + k, clause) for line, clause in ctx.validate('Trace_Dictable', obs[k:k + per_run])]
     for line, clause in bad:
         ev = obs[line - 1]['events']
         k = int(clause.split(':')[0][4:])
         hist = [{kk: v for kk, v in e.items() if kk not in ('post',)} for e in ev[:k]]
         ctx.violation(clause.split(':')[1], {'op': ev[k - 1]['op'], 'ops': [e['op'] for e in ev[:k]], 'hist': hist, 'source': 'c2s'},
-                      {'observed_post': ev[k - 1]['post'], 'observed_out': ev[k - 1]['out']})
-    ctx.sample({'recorded_history': [{kk: v for kk, v in e.items() if kk != 'post'} for e in obs[0]['events'][:6]]})
+                      {'observed_post': ev[k - 1]['post'] if len(json.dumps(ev[k - 1]['post'])) < 20000 else '<large>', 'observed_out': ev[k - 1]['out']})
 
 
 def run(ctx):
@@ -544,6 +685,16 @@ def run(ctx):
             check(ctx, s, 'shared-arguments')
         pick = [s for s in snaps if len(s['hist']) >= 4 and s['hist'][-1]['op'] == 'RenameMap'] or snaps
         ctx.sample({'history': pick[len(pick) // 2]['hist'], 'expected_args': pick[len(pick) // 2]['args'], 'expected_state': pick[len(pick) // 2]['regs']})
+    # n-ary calls: two tables, then ONE concat call over every list of 3 .. 5 (thorough: 6) operands drawn from the two tables and two records;
+    # the call is rendered as concat(*xs), concat(list), sum(xs), x1 + x2 + ..., x1.concat(*xs) in rotation
+    snaps = ctx.generate('Dictable', 'Dictable_gennary.cfg' if ctx.quick else 'Dictable_gennaryall.cfg')
+    for i, s in enumerate(snaps):
+        s['variant'] = i % 10
+        check(ctx, s, 'n-ary-concat')
+    pick = [s for s in snaps if len(s['hist'][-1]['ops']) == 4 and s['hist'][-1]['ops'][1][0] == 'rec' and s['regs']['r3']['table']['len'] >= 5] or snaps
+    ctx.sample({'history': pick[len(pick) // 2]['hist'], 'expected_state': pick[len(pick) // 2]['regs']['r3']})
+    if not ctx.quick:
+        ctx.mc('Dictable', 'Dictable_mclaws.cfg')      # ConcatNLaw and ScaleLaws (part of Dictable_mc2.cfg in the quick tier)
     for cfg, num, depth, cap in ([('Dictable_sim6.cfg', 900, 7, 3000)] if ctx.quick else
                                  [('Dictable_sim6.cfg', 12000, 7, 40000), ('Dictable_sim10.cfg', 6000, 11, 20000)]):
         sims = ctx.generate('Dictable', cfg, simulate=num, depth=depth, seed=ctx.seed + 1, workers=1)
@@ -570,11 +721,11 @@ def replay(ctx, body):
         args = build_args(NO_ARGS, ids)
         for k, e in enumerate(case['hist']):
             e = {kk: v for kk, v in e.items() if kk != 'out'}
-            e['out'] = step(regs, args, e, ids, k); e['post'] = post(regs, ids, args); events.append(e)
+            e['out'] = step(regs, args, e, ids, e.get('k', k)); e['post'] = post(regs, ids, args); events.append(e)
         bad = ctx.validate('Trace_Dictable', [{'events': events}])
         print('replay:', 'REJECTED %s' % bad if bad else 'accepted')
         return 1 if bad else 0
-    got = replay_hist({'hist': case['hist'], 'args0': case.get('args0', NO_ARGS)})
+    got = replay_hist({'hist': case['hist'], 'args0': case.get('args0', NO_ARGS), 'variant': case.get('variant', 0)})
     exp = body['detail']['expected']
     print('replay:', 'state differs from the specification' if got != exp else 'state equals the specification')
     return 1 if got != exp else 0
